@@ -112,6 +112,31 @@ class Scenario:
 
         nl.register(Recorder())
 
+        class Second:
+            # a second plugin, registered and unregistered between (and during) runs by the operations reg2 / unreg2: while it is
+            # registered it must receive exactly the hook calls the first one receives, from the next hook call on
+            @hookimpl
+            async def on_initialize_run(self, context: Any) -> None:
+                sc.tok('h2:on_initialize_run')
+
+            @hookimpl
+            async def on_start_run(self, context: Any, event: Any) -> None:
+                sc.tok('h2:on_start_run')
+
+            @hookimpl
+            async def on_end_run(self, context: Any, event: Any) -> None:
+                sc.tok('h2:on_end_run')
+
+            @hookimpl
+            async def on_finished(self, context: Any) -> None:
+                sc.tok('h2:on_finished')
+
+            @hookimpl
+            async def on_start_prompt(self, context: Any, event: Any) -> None:
+                sc.tok('h2:on_start_prompt')
+        self.second = Second()
+        self.second_registered = False
+
         class Raiser:
             # a faulty third-party plugin: its on_end_run raises when armed (operation `exitx`)
             @hookimpl
@@ -255,6 +280,20 @@ class Scenario:
                         c.exit(None, exitcode=-9)
                     else:
                         c.exit(RunResult(ret=int(w[1])), exitcode=0)
+            await settle()
+            self._collect()
+        elif w[0] == 'reg2':
+            if not self.second_registered:
+                name = nl.register(self.second)
+                self.second_registered = True
+                self.tok('r2:registered' if name is not None else 'r2:REFUSED')
+            await settle()
+            self._collect()
+        elif w[0] == 'unreg2':
+            if self.second_registered:
+                got = nl.unregister(self.second)
+                self.second_registered = False
+                self.tok('r2:unregistered' if got is not None else 'r2:NOT-FOUND')
             await settle()
             self._collect()
         elif w[0] == 'kclose':
